@@ -301,7 +301,7 @@ func pricingHarness(kind string, third string, bound int) harness {
 				if !res.OK {
 					return "", &violation{"execution", "exec-failed:" + res.Kind, fmt.Sprintf("%s failed while running concurrently with a schedule change: %s", res.Kind, res.Err)}
 				}
-				c1, c2 := bodies.Charge(res.Kind, 1000, res), bodies.Charge(res.Kind, 5000, res)
+				c1, c2 := refCharge(res.Kind, 1000), refCharge(res.Kind, 5000)
 				switch res.Consumed {
 				case c1:
 					return "charged-by-S1", nil
@@ -324,6 +324,20 @@ func pricingHarness(kind string, third string, bound int) harness {
 			return cls, nil
 		}
 	}}
+}
+
+var refCache = map[string]uint64{}
+
+// refCharge measures (once) what kind consumes when run alone under Schedule(base); for the kinds
+// with a closed form it must also agree with it (self-check of the harness).
+func refCharge(kind string, base uint64) uint64 {
+	k := fmt.Sprintf("%s/%d", kind, base)
+	if v, ok := refCache[k]; ok {
+		return v
+	}
+	v := bodies.RefCharge(kind, base)
+	refCache[k] = v
+	return v
 }
 
 // isolationHarness (H5): two executions on the same function objects naming different tokens of
@@ -351,7 +365,7 @@ func isolationHarness(kindA, kindB string, withChange bool, bound int) harness {
 			if rb.OK {
 				return "violation", &violation{"isolation", "foreign-token-accepted:" + kindB, fmt.Sprintf("%s on token T, for which the sender holds nothing and no role, succeeded while %s on token S ran concurrently (alone it is refused)", kindB, kindA)}
 			}
-			c1, c2 := bodies.Charge(kindA, 1000, ra), bodies.Charge(kindA, 5000, ra)
+			c1, c2 := refCharge(kindA, 1000), refCharge(kindA, 5000)
 			if ra.Consumed != c1 && ra.Consumed != c2 {
 				return "violation", &violation{"mixed-charge", "pricing:" + kindA, fmt.Sprintf("%s consumed %d, neither %d nor %d", kindA, ra.Consumed, c1, c2)}
 			}
@@ -478,7 +492,9 @@ func allHarnesses(tier checks.Tier) []harness {
 	}
 	// H5
 	hs = append(hs, isolationHarness("ESDTNFTCreate", "ESDTNFTCreate", false, 2), isolationHarness("ESDTNFTAddURI", "ESDTNFTCreate", false, 2),
-		isolationHarness("ESDTNFTTransfer", "ESDTNFTTransfer", false, 2), isolationHarness("MultiESDTNFTTransfer", "ESDTNFTAddURI", false, 2))
+		isolationHarness("ESDTNFTTransfer", "ESDTNFTTransfer", false, 2), isolationHarness("MultiESDTNFTTransfer", "ESDTNFTAddURI", false, 2),
+		isolationHarness("ESDTTransfer", "ESDTTransfer", false, 2), isolationHarness("ESDTLocalMint", "ESDTLocalMint", false, 2),
+		isolationHarness("ESDTLocalMint", "ESDTTransfer", false, 2), isolationHarness("ESDTNFTTransfer/same-shard", "MultiESDTNFTTransfer/same-shard", false, 2))
 	if thorough {
 		hs = append(hs, isolationHarness("ESDTNFTCreate", "ESDTNFTAddURI", true, 2), isolationHarness("ESDTNFTTransfer", "MultiESDTNFTTransfer", false, 3))
 	}
